@@ -149,6 +149,57 @@ def cli_flags_from_save(ctx, code, rs, name):
     return [], True
 
 
+def saved_flags(code, sess):
+    import configparser
+    cfg = configparser.ConfigParser()
+    if not cfg.read(os.path.join(code, sess + ".sav")):
+        return None
+    try:
+        return cfg.get("rule_info", "skip_brute"), cfg.get("rule_info", "skip_case")
+    except Exception as e:      # a save file without the flags cannot say how to rebuild the grammar
+        return "unreadable: %s" % e
+
+
+def cli_flag_history(ctx, code, rs, name, flags):
+    """A session with exactly ONE of the two flags, quit and resumed three times through the real pcfg_guesser.main()
+    (harness/main_driver.py delivers the quit at a chosen pre-terminal): the save file must keep saying what the session
+    was started with, and the sessions together must emit exactly the guesses of an uninterrupted run."""
+    rd = os.path.join(code, "Rules", name)
+    if not os.path.isdir(rd):
+        rulesets.write_ruleset(rs, rd)
+    tag = "".join(f.strip("-")[0] for f in flags)
+    sess = "h%s_%s" % (tag, name)
+    want = (str("--skip_brute" in flags), str("--all_lower" in flags))
+    rep = {"ruleset": rs, "cli": "history", "flags": flags}
+    ref = common.run_main_driver(code, ["-r", name, "-s", "href%s_%s" % (tag, name)] + flags)
+    if ref.get("error"):
+        return [{"sig": "C14:guesser-raised", "what": "pcfg_guesser.main %s: %s" % (flags, ref["error"]), "replay": rep}], 0
+    npops = len(ref["pops"])
+    vio, outs, cut = [], [], 0
+    k1 = ctx.rng.randint(1, max(1, npops // 3)) if ctx is not None else 1
+    steps = [(["-r", name, "-s", sess] + flags, k1), (["-r", name, "-s", sess, "--load"], 1 + (k1 % 3)),
+             (["-r", name, "-s", sess, "--load"], 2), (["-r", name, "-s", sess, "--load"], None)]
+    for k, (args, qp) in enumerate(steps):
+        r = common.run_main_driver(code, args, quit_after_pops=qp)
+        if r.get("error"):
+            vio.append({"sig": "C14:guesser-raised", "what": "session %d of the history (%s) failed: %s" % (k + 1, " ".join(args), r["error"]), "replay": rep})
+            break
+        outs.append(r["out"])
+        cut += qp is not None and len(r["out"]) < len(ref["out"])
+        got = saved_flags(code, sess)
+        if got is not None and got != want:
+            vio.append({"sig": "C14:flags-not-from-save", "what": "after session %d of a quit/--load history the save file says skip_brute/skip_case = %r, "
+                        "the session was started with %r" % (k + 1, got, want), "replay": rep})
+            break
+    allout = set(x for o in outs for x in o)
+    if not vio and allout != set(ref["out"]):
+        miss = sorted(set(ref["out"]) - allout)[:3]
+        extra = sorted(allout - set(ref["out"]))[:3]
+        vio.append({"sig": "C14:flags-not-from-save", "what": "a session started with %s, quit and resumed three times, emits other guesses than an "
+                    "uninterrupted run: missing %r, foreign %r" % (" ".join(flags), miss, extra), "replay": rep})
+    return vio, cut
+
+
 def run(ctx):
     n = ctx.scale(80, 800)
     sc = common.scratch()
@@ -200,6 +251,12 @@ def run(ctx):
         v, ran = cli_flags_from_save(ctx, code, rs, "F%d" % i)
         vio += v
         dist["cli_runs"] += ran
+        # exactly one flag, two quit/resume cycles through the real 'q' key
+        fl = [["--skip_brute"], ["--all_lower"]][i % 2]
+        v, cut = cli_flag_history(ctx, code, rs, "F%d" % i, fl)
+        vio += v
+        dist["cli_histories"] = dist.get("cli_histories", 0) + 1
+        dist["cli_history_sessions_cut_by_q"] = dist.get("cli_history_sessions_cut_by_q", 0) + cut
     shards = []
     per = 80
     for s in range(0, len(cases), per):
@@ -220,7 +277,8 @@ def run(ctx):
     rule = ("generated rulesets with the Markov structure first / in the middle / last / absent / alone (cyclically), loaded by the "
             "real loader under the four flag combinations; base lists compared bit-exactly with the model and with the direct "
             "restriction oracle, capitalisation tables under all_lower, pre-terminal streams for every third ruleset, and the CLI "
-            "save/--load path with the flags omitted on resume; distinct by grammar.txt; non-trivial = Markov not simply in the middle of a 2-line file")
+            "save/--load path with the flags omitted on resume, and histories of a one-flag session quit at a chosen pre-terminal (real pcfg_guesser.main in-process, harness/main_driver.py) and resumed "
+            "three times (save file flags after every session, union of the outputs = the uninterrupted run); distinct by grammar.txt; non-trivial = Markov not simply in the middle of a 2-line file")
     return {"evaluations": dist["rulesets"] * 4, "distinct_nontrivial": nontrivial, "rule": rule, "samples": samples,
             "corr": corr, "violations": vio, "dist": dist}
 
@@ -230,6 +288,10 @@ def replay(ctx, data):
     if "ruleset" not in inp:
         return []
     rs = inp["ruleset"]
+    if inp.get("cli") == "history":
+        code = common.copy_code_tree(common.scratch())
+        v, _ = cli_flag_history(ctx, code, rs, rs.get("name", "F0"), inp.get("flags") or ["--skip_brute"])
+        return v
     if inp.get("cli") == "flags":
         code = common.copy_code_tree(common.scratch())
         v, _ = cli_flags_from_save(ctx, code, rs, rs.get("name", "F0"))
